@@ -379,7 +379,41 @@ fn do_job(job: Job, driver: &str, rep: &mut Report) {
     c02::compare_chunk_quiet(&texts, driver, rep, "c01.parse");
 }
 
+/// a tree file of several hundred kilobytes whose labels are multi-byte characters: whatever way the file is read (at once, in
+/// blocks of any size), every label comes back as written
+fn large_file_roundtrip(rep: &mut Report) {
+    for (k, stem) in ["日本語の木の葉", "Espèce_n°_été_", "ŁódźŻółć€"].iter().enumerate() {
+        let n = 9000 + 37 * k;
+        let mut t = Tree::new();
+        let root = t.add(phylotree::tree::Node::new());
+        for i in 0..n {
+            let _ = t.add_child(phylotree::tree::Node::new_named(&format!("{stem}{i}")), root, Some(1.0 + (i % 7) as f64));
+        }
+        let case = format!("real.star\t{n} tips named {stem}<i>\tto_file -> from_file");
+        rep.case(&case, true);
+        rep.count("large_files_with_multibyte_labels");
+        let path = std::env::temp_dir().join(format!("pvh-c01-big-{}-{k}.nwk", std::process::id()));
+        let p2 = path.clone();
+        let t2 = t.clone();
+        let r = guarded(std::panic::AssertUnwindSafe(move || t2.to_file(&p2).map_err(|e| format!("{e:?}")).and_then(|_| Tree::from_file(&p2).map_err(|e| format!("{e:?}")))));
+        let _ = std::fs::remove_file(&path);
+        match r {
+            Ok(Ok(b)) => {
+                let (a, b2) = (t.get_leaf_names(), b.get_leaf_names());
+                if a != b2 {
+                    let first = a.iter().zip(b2.iter()).position(|(x, y)| x != y);
+                    rep.oracle("roundtrip", "file:large:labels-differ", &case, &format!("{} vs {} labels, first difference at tip {first:?}: {:?} vs {:?}", a.len(), b2.len(), first.and_then(|i| a.get(i)), first.and_then(|i| b2.get(i))));
+                }
+            }
+            other => rep.oracle("roundtrip", "file:large:error", &case, &format!("{:?}", other.map(|x| x.map(|_| ())))),
+        }
+    }
+}
+
 pub fn run(prop: &str, thorough: bool, seed: u64, driver: &str, rep: &mut Report) {
+    if prop == "C01" {
+        large_file_roundtrip(rep);
+    }
     let mut rng = Rng::new(seed);
     let formats = prop == "C16";
     let (jobs_n, per) = if thorough { (160, 5000) } else { (16, if formats { 500 } else { 1500 }) };
